@@ -40,6 +40,12 @@ func (P *Prog) receiverClosure(fn *ssa.Function) []*ssa.Function {
 			case *ssa.ChangeType:
 				v = x.X
 				continue
+			case *ssa.Call:
+				if a, ok := P.identityArg(x); ok {
+					v = a
+					continue
+				}
+				return false
 			case *ssa.Parameter:
 				return paramIndex(x) == 0 && x.Parent() == f
 			}
